@@ -94,3 +94,33 @@ def structured(case, note):
 def raw_bytes(case, note):
     mode, n, _ = run_case(case, note)
     note.nontrivial = len(case['data']) > 0
+
+
+# ---------------------------------------------------------------------------
+# coverage-guided bytes (atheris), thorough tier
+# ---------------------------------------------------------------------------
+
+@PROP.custom('coverage-guided')
+def coverage_guided(ctx):
+    from .. import fuzz
+    from ..core import FacetResult
+    if ctx.tier == 'quick':
+        r = FacetResult('coverage-guided')
+        r.notes.append('coverage-guided campaign runs in the thorough tier only')
+        return r
+    strings = shipped_strings('mexStringFile')
+    corpus = []
+    for k in range(12):
+        entries = [{'tbh': 100 + k, 'tbl': k, 'tag': 0x4654 if k % 2 else 0x4644, 'hash': strings[(7 * k + j) % len(strings)]['hash'],
+                    'line': 10 * k, 'data': bytes(range(4 * (k % 5))), 'length': None, 'pad': None, 'trailer': None}
+                   for j in range(k % 4)]
+        corpus.append(D.enc_trace_buffer({'ver': 2, 'hdr_len': 32, 'time_flg': 1, 'endian': 0x42,
+                                          'name': b'FANS        ', 'wrap': k, 'entries': entries}))
+    return fuzz.campaign('coverage-guided', 'trace', corpus, runs=300000, seed=ctx.seed, jobs=4, max_len=1024,
+                         sig_prefix='C15.fuzz')
+
+
+def replay_coverage_guided(case):
+    data = case['data']
+    lines = guard('C15.decode', trace().parse_trace_data, memoryview(data), D.shipped('mexStringFile'))
+    D.compare_trace_output(lines, data, shipped_strings('mexStringFile'), oracle='C15')
